@@ -127,5 +127,5 @@ def run(ctx):
     px = pC50.Plex(ctx)
     return [pC50.rule_sentinel(px), pC50.rule_symbols(px), pC50.rule_priority(px), pC50.rule_backup(px), pC50.rule_split(px), pC50.rule_inf(px),
             pC50.rule_nfa(px), pC50.rule_attrs(px), pC50.rule_closure(px), pC50.rule_protocol(px), sC50.rule_eof(px),
-            sC50.rule_charset(px), sC50.rule_tmap(px), sC50.rule_route(px), sC50.rule_buffer(px)]
-    # sC50.rule_charset_duplicates(px)   # pending finding (FINDING_1: Any("aa") also matches "b")
+            sC50.rule_charset(px), sC50.rule_tmap(px), sC50.rule_route(px), sC50.rule_buffer(px), sC50.rule_charset_duplicates(px)]
+    # sC50.rule_charset_duplicates(px): armed after the repair 19ab7cd1b (FINDING_1: Any("aa") also matches "b")
